@@ -6,6 +6,7 @@ mod c03;
 mod c04;
 mod c05;
 mod c06;
+mod c07;
 mod c08;
 mod c09;
 mod c10;
@@ -14,6 +15,8 @@ mod c14;
 mod c15;
 mod c16;
 mod c17;
+mod c18;
+mod c19;
 mod c20;
 mod fd;
 mod monitor;
@@ -92,6 +95,7 @@ fn main() {
         "C04" => c04::run(mk("C04")),
         "C05" => c05::run(mk("C05")),
         "C06" => c06::run(mk("C06")),
+        "C07" => c07::run(mk("C07")),
         "C08" => c08::run(mk("C08")),
         "C09" => c09::run(mk("C09")),
         "C10" => c10::run(mk("C10")),
@@ -100,6 +104,8 @@ fn main() {
         "C15" => c15::run(mk("C15")),
         "C16" => c16::run(mk("C16")),
         "C17" => c17::run(mk("C17")),
+        "C18" => c18::run(mk("C18")),
+        "C19" => c19::run(mk("C19")),
         "C20" => c20::run(mk("C20")),
         _ => {
             eprintln!("unknown property {id}");
